@@ -38,7 +38,7 @@ static void build_requests(void) {
     REQ[NREQ++] = ev_reset(0, ST_M1);
 }
 /* scenario id: start*(NREQ+NREQ*NREQ) + (len1: r | len2: NREQ + r1*NREQ + r2); constructors: 2*(...) + c */
-#define NSTART 3
+#define NSTART 4
 static int nscen_req(void) { return NSTART * (NREQ + NREQ * NREQ); }
 static int NSCEN;
 static void scen_decode(int s, int *start, int *r1, int *r2, int *ctor) {
@@ -52,7 +52,7 @@ static void scen_name(int s, char *b, size_t cap) {
     static const char *cn[] = {"init_automata_mapping", "init_automata_enumeration", "init_automata_session", "session_table_create"};
     if (ctor >= 0) { snprintf(b, cap, "constructor %s", cn[ctor]); return; }
     char n1[120], n2[120] = ""; pev_name(&REQ[r1], n1, sizeof n1); if (r2 >= 0) pev_name(&REQ[r2], n2, sizeof n2);
-    snprintf(b, cap, "from %s: %s%s%s", start == 2 ? "[mapper active, two observations more than one QueryResp carries]" : start ? "[mapper active, 2 observations, icon cached]" : "[fresh]", n1, r2 >= 0 ? " ; " : "", n2);
+    snprintf(b, cap, "from %s: %s%s%s", start == 3 ? "[fresh; a second interface of the responder is in a session with 2 observations]" : start == 2 ? "[mapper active, two observations more than one QueryResp carries]" : start ? "[mapper active, 2 observations, icon cached]" : "[fresh]", n1, r2 >= 0 ? " ; " : "", n2);
 }
 
 /* ------------------------------------------------------------ fault slots */
@@ -91,6 +91,12 @@ static uint64_t evals, effective;
 static uint32_t base_blocks; static uint64_t base_bytes;      /* per-interface record of a fresh responder, measured in main() */
 static void start_state(int start) {
     if (!start) return;
+    if (start == 3) {      /* the responder's OTHER interface is mid-session (no fault there); the faulty scenario then runs on interface 0 from fresh */
+        pev e = ev_discover(0, ST_M1, ST_M1, 0x1234, 1); drv_linux(&e, 1);
+        e = ev_probe(0x04, 0, ST_S0, ST_S0, ST_OWN, ST_OWN); drv_linux(&e, 1);
+        e = ev_probe(0x03, 0, ST_PEER, ST_BR, ST_OWN, ST_OWN); drv_linux(&e, 1);
+        return;
+    }
     pev e = ev_discover(0, ST_M1, ST_M1, 0x1234, 1); drv_linux(&e, 0);
     if (start == 2) {      /* a see-list that needs two QueryResp frames: the first answer carries the 'more' flag */
         int n = (int)((W.iface[0].mtu - 34) / 20) + 2;
@@ -179,10 +185,21 @@ static uint32_t run_scenario(int s, int slot, int second) {
             }
         }
     }
+    uint32_t nif = 1;
+    if (start == 3) {      /* the other interface never saw a fault: its session must be intact (mapper still bound, both observations reported) */
+        nif = 2;
+        pev d2 = ev_discover(0, ST_M2, ST_M2, 0x5555, 3); vf_trace_clear(); drv_linux(&d2, 1);
+        if (tr_sends()) vf_violation("faults:other-interface-lost-its-mapper", "scenario under [%s] on interface 0: interface 1, which saw no fault, now answers a Discover of a station that is not its mapper", what);
+        pev q2 = ev_query(0, ST_M1, ST_M1, 0x0c0c); vf_trace_clear(); drv_linux(&q2, 1);
+        const vf_trec *t = tr_send(0);
+        unsigned cnt = (t && t->len >= 34) ? (unsigned)(((tr_bytes(t)[32] << 8) | tr_bytes(t)[33]) & 0x3FFF) : 9999;
+        if (tr_sends() != 1 || cnt != 2) vf_violation("faults:other-interface-lost-its-observations", "scenario under [%s] on interface 0: interface 1, which saw no fault, answers its Query with %d frame(s) and %u observations instead of 2", what, tr_sends(), cnt);
+        pev r1 = ev_reset(0, ST_M1); vf_trace_clear(); drv_linux(&r1, 1);
+    }
     /* faults are over: a topology Reset must leave nothing but the per-interface record */
     vf_trace_clear();
     pev rs = ev_reset(0, ST_M1); drv_linux(&rs, 0);
-    if (vf_live_blocks() > base_blocks || vf_live_bytes() > base_bytes) vf_violation("faults:leak-after-reset", "scenario under [%s], then Reset: %u blocks (%llu bytes) remain allocated; a fresh responder keeps %u block(s), %llu bytes", what, vf_live_blocks(), (unsigned long long)vf_live_bytes(), base_blocks, (unsigned long long)base_bytes);
+    if (vf_live_blocks() > nif * base_blocks || vf_live_bytes() > nif * base_bytes) vf_violation("faults:leak-after-reset", "scenario under [%s], then Reset: %u blocks (%llu bytes) remain allocated; a fresh responder keeps %u block(s), %llu bytes", what, vf_live_blocks(), (unsigned long long)vf_live_bytes(), base_blocks, (unsigned long long)base_bytes);
     if (W.led.bad_free) vf_violation("faults:bad-free", "scenario under [%s]: free of a pointer that is not a live allocation", what);
     return pts;
 }
@@ -248,7 +265,7 @@ int main(int argc, char **argv) {
     uint64_t total = (uint64_t)NSCEN * (uint64_t)NSLOTS;
     fr_run(&fc, total * (uint64_t)A.part / (uint64_t)A.nparts, total * (uint64_t)(A.part + 1) / (uint64_t)A.nparts, &st);
     R.evaluations = st.executed; R.exhaustive = st.cap == NULL; R.cap_hit = st.cap;
-    vf_sample("%d scenarios (3 start states x histories of length <= 2 over %d requests, + 4 constructors) x %d fault plans (fault-free, sends refused, allocations fail from k on, %d getter subsets, %d single deviations%s)", NSCEN, NREQ, NSLOTS, NGETSUB, N_DEV, vf_thorough() ? " each extended by every later second deviation" : "");
+    vf_sample("%d scenarios (4 start states x histories of length <= 2 over %d requests, + 4 constructors) x %d fault plans (fault-free, sends refused, allocations fail from k on, %d getter subsets, %d single deviations%s)", NSCEN, NREQ, NSLOTS, NGETSUB, N_DEV, vf_thorough() ? " each extended by every later second deviation" : "");
 #else
     NCV = sigma_build(CV, 1024, vf_thorough() ? SIGMA_P : SIGMA_SMALL); c3.nev = NCV;
     c3.deadline_s = A.deadline;
